@@ -150,12 +150,42 @@ CLAIMED = {
              "blocks2_identity_wrong_witness, cover_nondividing_witness (L=5,B=S=2: stride == block is not enough). "
              "Tie: exact comparison of the implementation's A.N matrix with the model's normal e for all leaf classes and random "
              "trees; real A.H(A(1)) and A.N(1) of ArrayToBlocks in 1-3 D vs the per-axis cover counts printed by the Lean driver "
-             "(C04.coverAxis); FFT/IFFT shortcut is C05's dftMatrix_unitary.",
+             "(C04.coverAxis). "
+             "Deepened: every `_normal_linop` of sigpy/linop.py is translator-generated, fail-closed (Gen/LinopNormal.lean, "
+             "harness/translate/gen_c04.py: Linop._normal_linop = self.H * self; per class its own method or its absence; the "
+             "classes outside the modelled set must not define one): normal_overrides (exactly Identity, Reshape, Transpose, "
+             "Circshift, FFT, IFFT, NUFFT have a non-default rule; no tree node has one - Compose.N is self.H * self, not a nested "
+             "rule), normal_eq_gen (the model's normal = the generated normalGen on every tree), normal_denote (= "
+             "normal_denote_leaves about the generated normalGen / adjGen tables), gen_shortcuts_exact (every non-default arm "
+             "of the generated leaf table has A^H(A x) = x = A.N x on the whole input range), compose_normal_nest (the nested "
+             "rule C.H * B.N * C acts as (B*C).H * (B*C) whenever B.N acts as B.H B), fft_shortcut_exact (generated: FFT/IFFT.N = "
+             "Identity(shape), .H = IFFT/FFT; matrix of the .H class times matrix of the class = 1 for every rank / shape / axes / "
+             "center, from C05 fft_table_unitary + ifft_table_eq_conjTranspose), normalOpaque_table (wavelets, convolutions, "
+             "NUFFTAdjoint, NUFFT(toeplitz=False): default rule). NUFFT Toeplitz branch: the operator chain is generated statement "
+             "by statement (nufftNormalChain: fft_axes from the range expression, Resize / FFT / Multiply constructor arguments "
+             "bound by the __init__ signatures with defaults written out, the product factor by factor; psfShape from "
+             "toeplitz_psf / _get_oversamp_shape) and interpreted factor by factor as matrices (Resize -> C09 zero-pad relation, "
+             "FFT -> Kronecker product of C05's centred orthonormal DFT matrices, Multiply(psf) -> diagonal, .H -> conjugate "
+             "transpose; any other list denotes nothing): toeplitz_chain_exact_1d/_2d/_3d - with the exact psf the generated "
+             "chain equals A^H A of the exact non-uniform DFT entry by entry (C06 toeplitz_structure{,_2d,_3d}). "
+             "b2a2_normal_identity_iff / b2a3_normal_identity_iff: BlocksToArray.N = A A^H is the identity on block arrays iff on "
+             "every block axis B <= S or a single block (generated 2-D / 3-D loop nests). Normal equations: objective_expand, "
+             "normal_equations_iff_stationary(_tree) (A.N x = A.H y on the input range iff the first variation <A h, A x - y> of "
+             "|Ax - y|^2 vanishes for all h; any commutative star ring; for every tree over the proved leaves with A.N / A.H the "
+             "generated trees), normal_equations_iff_minimiser_tree (over C: x solves A.N x = A.H y iff x is a global minimiser "
+             "of |Ax - y|^2) - joined with C14 cg_normal_eq (the system CG is given is A.N x = A.H y) this is 'a solver that works "
+             "through A.N minimises the objective defined by A itself'.",
         note="Trusted: as C01 (MatMul / RightMatMul and the imported conv / FFT leaves are inside C01.LeafProved, hence covered by "
-             "normal_denote_leaves). Side conditions of the shortcut theorems: non-negative extents. b2a_normal_identity_iff is proved "
-             "for the 1-D loop nests (2-D / 3-D: cover level per axis + search oracle). Toeplitz NUFFT normal is "
-             "decided by the search oracle only (relative l2 error <= 6% at defaults, 0.6% at oversamp 2 = twice the C06 bound).",
-        technique="Lean 4 proof (normal = adjoint composed with operator; block cover counts) + exact differential correspondence",
+             "normal_denote_leaves). Side conditions of the shortcut theorems: non-negative extents; of the block iff theorems: at least "
+             "one block of positive size per axis, all blocks inside the array (what num_blks guarantees). Translator gen_c04: the "
+             "text of toeplitz_psf / _get_oversamp_shape that fixes psf.shape is pinned statement by statement; the chain "
+             "interpretation chainMat1/2/3 (which matrix a Resize / FFT / Multiply factor stands for) is hand-written from C05 / "
+             "C09 and covers the unbatched 1-3 D layouts (leading batch axes: every factor acts per batch entry, C06Batch). The "
+             "FFT / IFFT shortcut is proved at matrix level (C05's table, the entries of C01.fftLeaf), not re-derived through the "
+             "entry-list model, whose `normal` uses the default rule for imported leaves. Oracle-only: the psf COMPUTED by "
+             "toeplitz_psf (Kaiser-Bessel nufft / nufft_adjoint, complex64) is only close to the exact Gram kernel - relative "
+             "l2 error <= 6% at defaults, 0.6% at oversamp 2 (twice the C06 bound) and 40 x the measured NUFFT accuracy.",
+        technique="Lean 4 proof (translator-generated _normal_linop table = model; normal = adjoint composed with operator; block cover counts; generated Toeplitz chain = exact Gram operator; normal equations = stationarity) + exact differential correspondence",
         design="DESIGN.md §3 C04, §9"),
     "C19": dict(
         text="Lean 4 theorems over C about definitions the translator regenerates on every run from mri/rf/sim.py, optcont.py and "
